@@ -14,6 +14,9 @@ TESTDATA = Path(gnpy.__file__).parent.parent / 'tests' / 'data'
 _cache = {}
 
 
+TIER = 'quick'        # set by the runner before each case; only widens what the generators draw
+
+
 def eqpt_json(name='eqpt_config.json'):
     """Legacy-form JSON of a shipped equipment library (deep copy)."""
     if name not in _cache:
@@ -226,6 +229,10 @@ def gen_topology(rng, *, n_sites=None, max_sites=5, max_spans=3, whole_km=False,
     """Random meshed topology in legacy JSON form. Both directions of each link are built independently
     (asymmetric lengths/losses). Returns (topology json, description)."""
     n = n_sites or rng.randint(2, max_sites)
+    if TIER == 'thorough' and rng.random() < 0.3:
+        # thorough tier: a share of larger meshes and longer links than the quick tier ever builds
+        n = min(n + rng.randint(1, 3), 8)
+        max_spans = max_spans + rng.randint(0, 3)
     sites = [chr(ord('A') + i) for i in range(n)]
     els, cx = [], []
     for i, s in enumerate(sites):
